@@ -147,5 +147,8 @@ Definition ctor_order_ok (c : ctor_body) : bool :=
   cstmts_eqb (core (ctor_stmts c)) [SUser; SChan; SSpawn] && cstmt_eqb (hd SDebut (ctor_stmts c)) SUser.
 Definition actor_ctor (m : model) : option ctor_body :=
   match ctor_of m with Some c => match cb_user c with Some _ => Some c | None => None end | None => None end.
+(* the loop is ended by a self-consuming call only for a sole owner: every such method carries the guard, or the handle
+   type cannot be cloned (then the number of handles never exceeds the one `new` returned) *)
+Definition consume_ends_sole (m : model) : bool := is_nil (slf_bodies m) || r_guard (elab m) || negb (r_clonable (elab m)).
 Definition wf_C04 (m : model) : bool :=
   wf_struct m && ctor_shape_ok m && match actor_ctor m with Some c => ctor_order_ok c | None => true end.
